@@ -50,13 +50,21 @@ def run_case(args):
                           max_paths=limits.get("max_paths", 200000),
                           wall_budget_s=limits.get("wall_budget_s"))
         fn, params = case["fn"], case.get("params", {})
+        plist = case.get("params_list")
+        recs = []
+        for sub_i, sub in enumerate(plist if plist is not None else [params]):
+            def body(sub=sub):
+                rehost.reset_state()
+                c.want_model()
+                fn(c, **sub)
 
-        def body():
-            rehost.reset_state()
-            c.want_model()
-            fn(c, **params)
-
-        recs = eng.run(body)
+            sub_recs = eng.run(body)
+            if plist is not None:
+                for r in sub_recs:
+                    r.sub = sub_i
+            recs.extend(sub_recs)
+            if eng.stats.get("truncated"):
+                break
         claims = {}
         sats, unknowns, bad_paths = [], [], []
         reached = set()
@@ -69,17 +77,22 @@ def run_case(args):
                 d = claims.setdefault(lab, dict(unsat=0, sat=0, unknown=0))
                 d[res] += 1
                 if res == "sat":
+                    if plist is not None:
+                        model = dict(model or {}, __sub=getattr(r, "sub", 0))
                     sats.append(dict(label=lab, inputs=model, path=r.n))
                 elif res == "unknown":
                     unknowns.append(dict(label=lab, path=r.n))
             reached.update(r.reached)
             if r.status in ("depth", "unmodelled") and r.feasible != "unsat":
                 bad_paths.append(dict(path=r.n, status=r.status, detail=r.detail, feasible=r.feasible,
-                                      inputs=r.model))
+                                      inputs=r.model, sub=getattr(r, "sub", None)))
             if r.status == "ok" and r.model is not None:
-                val.append(dict(inputs=r.model, observed=r.observed, path=r.n))
+                mdl = r.model if plist is None else dict(r.model, __sub=getattr(r, "sub", 0))
+                val.append(dict(inputs=mdl, observed=r.observed, path=r.n))
             for lab, vals in r.reach_models:
                 if len(witnesses) < 60:
+                    if plist is not None:
+                        vals = dict(vals, __sub=getattr(r, "sub", 0))
                     witnesses.append(dict(label=lab, inputs=vals))
         out.update(ok=True, stats=eng.stats, claims=claims, sats=sats, unknowns=unknowns,
                    bad_paths=bad_paths, reached=sorted(reached), statuses=statuses,
@@ -112,7 +125,10 @@ def real_main():
         pendulum.week_starts_at(pendulum.MONDAY)
         pendulum.week_ends_at(pendulum.SUNDAY)
         try:
-            case["fn"](c, **case.get("params", {}))
+            if case.get("params_list") is not None:
+                case["fn"](c, **case["params_list"][job["inputs"].get("__sub", 0)])
+            else:
+                case["fn"](c, **case.get("params", {}))
             r["status"] = "ok"
         except PathAbort:
             r["status"] = "abort"
